@@ -738,4 +738,94 @@ theorem albSC_closed (E : Ell ℝ) (s1 c1 s2 c2 txi1 txi2 dd A1 A2 AZ : ℝ)
     rw [hcxi, hcxi, hqx]
     exact keyC _ _ hdsxi hden hsx
 
+/-! ## the Newton iteration of `AlbersEqualArea::Init` -/
+
+/-- **The Newton function of `AlbersEqualArea::Init`.**  With `sphi0 = tan φ0/sec φ0`, `x = (1 − sphi0)/(1 − e² sphi0)`, `axm1` the exact
+    `atanhee(x)/x − 1`, and the subtraction formula `atanhee(1) − atanhee(sphi0) = atanhee(x)`, the coded
+    `u = sm1·g − s/qZ·(D − g(A + B))` is `sm1·g − (s/qZ)(1 − g (qZ − q0))`, `g = scbet0² sphi0`, `q0 = (1 − e²)(sphi0/(1 − e² sphi0²) + atanhee(sphi0))`. -/
+theorem albNewtonU_closed (E : Ell ℝ) (s sm1 t0 axm1 A0 AZ : ℝ) (he2m : E.e2m ≠ 0)
+    (hw : 1 - E.e2 * (t0 / hyp t0) ^ 2 ≠ 0) (hv : 1 - E.e2 * (t0 / hyp t0) ≠ 0)
+    (hAZ : E.atanhee 1 = AZ)
+    (hax : (1 + axm1) * ((1 - t0 / hyp t0) / (1 - E.e2 * (t0 / hyp t0))) = AZ - A0) :
+    (albNewtonU E s sm1 t0 axm1).1 =
+      sm1 * ((1 + (E.fm * t0) ^ 2) * (t0 / hyp t0)) -
+        s / E.qZ * (1 - (1 + (E.fm * t0) ^ 2) * (t0 / hyp t0) *
+          (E.qZ - E.e2m * (t0 / hyp t0 / (1 - E.e2 * (t0 / hyp t0) ^ 2) + A0))) := by
+  have he2m' : E.e2m = 1 - E.e2 := by simp only [Ell.e2m, one_real]
+  have hfm2 : E.fm ^ 2 = 1 - E.e2 := by rw [e2_eq]; ring
+  have h := hyp_sq t0; have p := hyp_pos t0; have a := abs_lt_hyp t0
+  have hsq : Real.sqrt (1 + t0 ^ 2) = hyp t0 := (hyp_real t0).symm
+  have hqZ : E.qZ = 1 + E.e2m * AZ := by simp only [Ell.qZ, one_real, hAZ]
+  set σ := t0 / hyp t0 with hσ
+  have hm : 1 / (hyp t0 * (t0 + hyp t0)) = 1 - σ := by rw [hσ]; exact (one_sub_sn t0).symm
+  have hσ1 : σ < 1 := by rw [hσ, div_lt_one p]; have := le_abs_self t0; linarith
+  have hσ2 : -1 < σ := by
+    rw [hσ, lt_div_iff₀ p]; have := neg_abs_le t0; linarith
+  have hp1 : 1 + σ ≠ 0 := by linarith
+  have hscb : (1 + (E.fm * t0) ^ 2) * (1 - σ ^ 2) = 1 - E.e2 * σ ^ 2 := by
+    rw [hσ, mul_pow, hfm2]; field_simp; linear_combination ((1 - E.e2) * t0 ^ 2) * h
+  -- (1 − e²)·atanhee(x) in terms of the coded B
+  unfold albNewtonU
+  simp only [sq_real, one_real, two_real, sqrt_real, hsq, hm]
+  rw [he2m'] at he2m ⊢
+  rw [hqZ, he2m']
+  simp only [← hσ]
+  have hm1 : 1 - σ ≠ 0 := by linarith
+  have hG : 1 + (E.fm * t0) ^ 2 = (1 - E.e2 * σ ^ 2) / ((1 - σ) * (1 + σ)) := by
+    rw [eq_div_iff (mul_ne_zero hm1 hp1)]; linear_combination hscb
+  have hAZ' : AZ = A0 + (1 + axm1) * ((1 - σ) / (1 - E.e2 * σ)) := by linarith
+  rw [hG, hAZ']
+  congr 1
+  congr 1
+  have hw' : 1 - E.e2 * σ ^ 2 ≠ 0 := hw
+  have hv' : 1 - E.e2 * σ ≠ 0 := hv
+  have he' : 1 - E.e2 ≠ 0 := he2m
+  have hw'' : 1 - σ ^ 2 * E.e2 ≠ 0 := by rw [mul_comm]; exact hw'
+  have hv'' : 1 - σ * E.e2 ≠ 0 := by rw [mul_comm]; exact hv'
+  field_simp
+  ring
+
+/-- a zero correction of the Newton step means a zero of `u` (the derivative being finite and non-zero) -/
+theorem albNewtonStep_zero_iff (E : Ell ℝ) (s sm1 t0 : ℝ)
+    (hdu : (albNewtonU E s sm1 t0 (atanhxm1 (albNewtonArg E t0))).2.1 ≠ 0) :
+    albNewtonStep E s sm1 t0 = 0 ↔ (albNewtonU E s sm1 t0 (atanhxm1 (albNewtonArg E t0))).1 = 0 := by
+  have hc : (albNewtonU E s sm1 t0 (atanhxm1 (albNewtonArg E t0))).2.2 = Real.sqrt (1 + t0 ^ 2) * (1 + t0 ^ 2) := by
+    simp only [albNewtonU, sq_real, one_real, sqrt_real]
+  have hpos : 0 < Real.sqrt (1 + t0 ^ 2) * (1 + t0 ^ 2) := by
+    have : 0 < 1 + t0 ^ 2 := by positivity
+    exact mul_pos (Real.sqrt_pos.mpr this) this
+  unfold albNewtonStep
+  simp only [zero_real]
+  rw [hc]
+  constructor
+  · intro h
+    have h' : (albNewtonU E s sm1 t0 (atanhxm1 (albNewtonArg E t0))).1 / (albNewtonU E s sm1 t0 (atanhxm1 (albNewtonArg E t0))).2.1 *
+        (Real.sqrt (1 + t0 ^ 2) * (1 + t0 ^ 2)) = 0 := by linarith
+    rcases mul_eq_zero.mp h' with h1 | h1
+    · rcases div_eq_zero_iff.mp h1 with h2 | h2
+      · exact h2
+      · exact absurd h2 hdu
+    · exact absurd h1 hpos.ne'
+  · intro h; rw [h]; simp
+
+/-- the loop stays at a point where the correction vanishes -/
+theorem albNewtonLoop_fixed (E : Ell ℝ) (s sm1 stol t0 : ℝ) (h : albNewtonStep E s sm1 t0 = 0) (n : ℕ) :
+    albNewtonLoop E s sm1 stol n t0 = t0 := by
+  induction n with
+  | zero => rfl
+  | succ n ih => simp only [albNewtonLoop, h, add_zero, ih, ite_self]
+
+/-- `u = 0` with `sm1 = 1 − s` is the defining equation `s = sphi0 qZ/(m0² + sphi0 q0)` written without denominators:
+    `g qZ = s (1 + g q0)`, `g = scbet0² sphi0 = sphi0/m0²` -/
+theorem alb_u_zero_iff (s g qZ q0 : ℝ) (hq : qZ ≠ 0) :
+    (1 - s) * g - s / qZ * (1 - g * (qZ - q0)) = 0 ↔ g * qZ = s * (1 + g * q0) := by
+  constructor
+  · intro h
+    have : ((1 - s) * g - s / qZ * (1 - g * (qZ - q0))) * qZ = 0 := by rw [h, zero_mul]
+    have e : ((1 - s) * g - s / qZ * (1 - g * (qZ - q0))) * qZ = g * qZ - s * (1 + g * q0) := by field_simp; ring
+    linarith [e ▸ this]
+  · intro h
+    have e : (1 - s) * g - s / qZ * (1 - g * (qZ - q0)) = (g * qZ - s * (1 + g * q0)) / qZ := by field_simp; ring
+    rw [e, h]; simp
+
 end GeoVerif.Proofs.ConicInit
